@@ -429,13 +429,15 @@ def judge(ctx, progs_by_id, cases_by_pid, tag):
                 assert v["cases"] == len(cases_by_pid[v["id"]])
                 ncases += v["cases"]
                 for b in v["bad"]:
-                    rejected.append((v["id"], b["c"] - 1, b["at"], b["exp"]))
+                    rejected.append((v["id"], b["c"] - 1, b["at"], b["exp"], b.get("depth", 0)))
     return rejected, ncases
 
 
-def _sig(prog, mode, exp, obs):
+def _sig(prog, mode, exp, obs, depth=0):
     ks = progs1.prog_kinds(prog)
     return {"mode": mode, "expected": exp[0], "observed": obs[0],
+            # how many subflow calls are open where the flow is blocked at the rejected position
+            "subflow_depth": depth, "blocked_in_nested_subflow": depth >= 2,
             "has_while": "while" in ks, "has_if": "if" in ks, "has_else": "else" in ks, "has_break": "break" in ks,
             "has_continue": "continue" in ks, "has_do": "do" in ks, "has_when": "when" in ks,
             "flows": len(prog["flows"])}
@@ -528,7 +530,8 @@ def _batch(ctx, pool, progs, tier, rnd, acc):
     acc["judged"] += n
     ctx.log("judge: %d recorded executions judged by TLC, %d rejected" % (n, len(rej)))
     judged_mismatch = 0
-    for pid, c, at, exp in rej:
+    reported = {}
+    for pid, c, at, exp, depth in sorted(rej, key=lambda r: (r[0], len(cases[r[0]][r[1]][0]), r[1])):
         h, o, meta = cases[pid][c]
         mode = meta["mode"]
         prog = by_id[pid]
@@ -536,10 +539,15 @@ def _batch(ctx, pool, progs, tier, rnd, acc):
         if mode == "A":
             judged_mismatch += 1
         kind = "exception-while-following" if ob[0] == "X" else "step-differs"
+        acc["rejected"] += 1
+        rk = (pid, mode, kind, json.dumps([e, ob]))
+        reported[rk] = reported.get(rk, 0) + 1
+        if reported[rk] > 1:      # one report per (program, binding, kind, required/observed step): shortest history first
+            continue
         ctx.violation(kind, "binding %s: after history [%s] the flow requires %s, the runtime decided %s; program:\n%s" % (
             mode, _fmt(h[:at]), _fmtd(e), _fmtd(ob), progs1.render(prog, with_messages=False)),
             {"prog": prog, "mode": mode, "hist": h, "inputs": {"u": meta.get("u"), "v": meta.get("v")} if mode == "B" else None,
-             "at": at, "expected": exp, "observed": o, "sig": _sig(prog, mode, e, ob)})
+             "at": at, "expected": exp, "observed": o, "sig": _sig(prog, mode, e, ob, depth)})
     # consistency of the machinery: python-side comparison with the generated expectations vs the judge
     if (py_mismatch == 0) != (judged_mismatch == 0):
         raise RuntimeError("judge and generated expectations disagree: %d vs %d" % (judged_mismatch, py_mismatch))
@@ -577,7 +585,7 @@ def run(ctx):
     progs = progs1.generate(tier, ctx.seed)
     ctx.log("%d programs; TLC explores histories <= %d" % (len(progs), T["max_len"]))
     acc = {"states": 0, "trans": 0, "bad": 0, "leaves": 0, "callsA": 0, "convB": 0, "prefixes": set(), "nontriv": 0,
-           "evalsB": 0, "judged": 0, "samples": []}
+           "evalsB": 0, "judged": 0, "samples": [], "rejected": 0}
     with mp.Pool(16) as pool:
         for i in range(0, len(progs), BATCH):
             _batch(ctx, pool, progs[i:i + BATCH], tier, rnd, acc)
@@ -591,7 +599,7 @@ def run(ctx):
             "states": acc["states"], "transitions": max(acc["trans"], acc["states"]),
             "traces_validated_against_impl": acc["judged"],
             "evaluations": len(acc["prefixes"]) + acc["evalsB"], "distinct_nontrivial": acc["nontriv"],
-            "rule": "fixed corpus (18 programs, every construct) + seeded samples of the structured grammar (<= %d statements, "
+            "rule": "fixed corpus (20 programs, every construct) + seeded samples of the structured grammar (<= %d statements, "
                     "nesting <= %d; user/bot/set/if/else/else if/while/break/continue/do/execute/when, non-competing intents); for each "
                     "program TLC enumerates every history <= %d events that follows a flow (action results 0..2) or leaves it at any "
                     "point (+<= %d unjudged events); evaluation = one judged (program, history prefix) decision; non-trivial = program "
@@ -601,7 +609,7 @@ def run(ctx):
             "programs": len(progs), "programs_dropped_silent_divergence": acc["bad"], "maximal_histories": acc["leaves"],
             "compute_next_steps_calls": acc["callsA"], "llmrails_conversations": acc["convB"],
             "second_pass_histories": "all" if ctx.quick else "<= %d per program" % T["second_pass"],
-            "construct_counts": kinds,
+            "construct_counts": kinds, "rejected_executions": acc["rejected"],
         },
         "assumptions": [
             "expressions: integer constants, $v, $v + 1, ==, <, and/or/not over three variables; unset variables are None; an "
@@ -654,7 +662,7 @@ def replay(ctx, rec):
     print("history :", _fmt(h))
     print("observed:", [_fmtd(x) for x in obs])
     if rej:
-        _, _, at, exp = rej[0]
+        _, _, at, exp, _depth = rej[0]
         print("required:", [_fmtd(x) for x in exp])
         print("REJECTED at position %d: required %s, observed %s" % (at, _fmtd(exp[at - 1]), _fmtd(obs[at - 1]) if at - 1 < len(obs) else "-"))
         return False
